@@ -605,3 +605,11 @@ func (e *depEnv) Project(w *World) map[string]interface{} {
 		"stableLabel": RevOf(d.Labels["rollouts.kruise.io/stable-revision"]), "hpaOk": hpaOk, "hpa": w.Cfg.HPA,
 	}
 }
+
+// ReplicasOf: spec.replicas of the stable Deployment (0 if it does not exist)
+func (e *depEnv) ReplicasOf(w *World) int {
+	if d := e.stable(w); d != nil && d.Spec.Replicas != nil {
+		return int(*d.Spec.Replicas)
+	}
+	return 0
+}
